@@ -1432,16 +1432,93 @@ Proof.
     intros h; apply keeps_io_ops; exact I.
 Qed.
 
-(* it always answers (None when the pool is empty or the re-connect failed) *)
-Lemma get_conn_any_ok s r s' : get_conn_any s = (r, s') -> exists oh, r = Ok oh.
+Lemma nofuel_mtry {A} (m : M A) : nofuel (mtry m).
+Proof. intros s r s' H. unfold mtry in H. destruct (m s) as [[a|e|w] s1]; inversion H; subst; discriminate. Qed.
+Lemma nopanic_mtry {A} (m : M A) : nopanic m -> nopanic (mtry m).
 Proof.
-  intros H. unfold get_conn_any in H. unfold mbind at 1 in H. unfold get_client at 1 in H.
-  destruct (conns (cl s)) as [|first rest]; [inversion H; subst; eexists; reflexivity|].
-  unfold mbind at 1 in H. destruct (pop_any s) as [[pick|e|w] s1] eqn:Ep;
-    [|unfold pop_any in Ep; destruct (anyq s); discriminate|unfold pop_any in Ep; destruct (anyq s); discriminate].
-  cbv zeta in H. destruct (idle_expired (cfg (cl s))); [|inversion H; subst; eexists; reflexivity].
-  unfold mbind at 1 in H. unfold mtry in H.
-  destruct (new_conn _ s1) as [[u|e|w] s2] eqn:En.
-  - unfold mbind, shutdown in H. unfold mbind, io in H.
-    destruct (script s2); inversion H; subst.
-Abort.
+  intros Hm s r s' w H. unfold mtry in H. destruct (m s) as [[a|e|w'] s1] eqn:E; inversion H; subst; try discriminate.
+  exfalso. exact (Hm _ _ _ _ E eq_refl).
+Qed.
+Lemma nofuel_pop_any : nofuel pop_any.
+Proof. intros s r s' H. unfold pop_any in H. destruct (anyq s); inversion H; subst; discriminate. Qed.
+Lemma nopanic_pop_any : nopanic pop_any.
+Proof. intros s r s' w H. unfold pop_any in H. destruct (anyq s); inversion H; subst; discriminate. Qed.
+
+(* it answers None when the pool is empty or the re-connect failed; it never panics *)
+Lemma nofuel_get_conn_any : nofuel get_conn_any.
+Proof.
+  apply nofuel_bind; [apply nofuel_get_client|]. intros c.
+  destruct (conns c) as [|first rest]; [apply nofuel_ret|].
+  apply nofuel_bind; [apply nofuel_pop_any|]. intros pick. cbv zeta.
+  destruct (idle_expired (cfg c)); [|apply nofuel_ret].
+  apply nofuel_bind; [apply nofuel_mtry|]. intros [u|e|w]; try apply nofuel_ret.
+  apply nofuel_bind; [apply nofuel_shutdown|intros _; apply nofuel_ret].
+Qed.
+Lemma nopanic_get_conn_any : nopanic get_conn_any.
+Proof.
+  apply nopanic_bind; [apply nopanic_get_client|]. intros c.
+  destruct (conns c) as [|first rest]; [apply nopanic_ret|].
+  apply nopanic_bind; [apply nopanic_pop_any|]. intros pick. cbv zeta.
+  destruct (idle_expired (cfg c)); [|apply nopanic_ret].
+  apply nopanic_bind; [apply nopanic_mtry, nopanic_new_conn|]. intros [u|e|w]; try apply nopanic_ret.
+  apply nopanic_bind; [apply nopanic_shutdown|intros _; apply nopanic_ret].
+Qed.
+
+(* steps: the only catch (mtry) is followed by no further event when it caught an error *)
+Theorem steps_get_conn_any : forall s r s', get_conn_any s = (r, s') -> steps s s'.
+Proof.
+  intros s r s' H. unfold get_conn_any in H. unfold mbind at 1 in H. unfold get_client at 1 in H.
+  destruct (conns (cl s)) as [|first rest]; [inversion H; subst; apply steps_refl|].
+  bind_inv H pick s1 H1 H2.
+  - destruct (pop_any_seg _ _ _ H1) as [Hs1 _].
+    assert (F1 : full s s1) by (exists [], []; split; [exact Hs1|reflexivity]).
+    apply (full_steps_trans _ _ _ F1). cbv zeta in H2.
+    destruct (idle_expired (cfg (cl s))); [|inversion H2; subst; apply steps_refl].
+    unfold mbind at 1 in H2. unfold mtry in H2.
+    destruct (new_conn _ s1) as [[u|e|w] s2] eqn:En.
+    + pose proof (stepsR_ok_full _ _ _ (tracks_new_conn _ _ _ _ En)) as F2.
+      apply (full_steps_trans _ _ _ F2).
+      assert (T : tracks (let+ _ := shutdown (match pick with
+                                                | Some h => if in_pool h (first :: rest) then h else first
+                                                | None => first end) in ret (Some (match pick with
+                                                | Some h => if in_pool h (first :: rest) then h else first
+                                                | None => first end)))).
+      { apply tracks_bind; [apply tracks_shutdown|intros _; apply tracks_ret]. }
+      eapply stepsR_steps, T, H2.
+    + inversion H2; subst. eapply stepsR_steps, tracks_new_conn, En.
+    + inversion H2; subst. eapply stepsR_steps, tracks_new_conn, En.
+  - unfold pop_any in H1. destruct (anyq s); discriminate.
+  - unfold pop_any in H1. destruct (anyq s); discriminate.
+Qed.
+
+(* ---- non-vacuity ------------------------------------------------------------------------- *)
+Example steps_ex :
+  let s := {| script := [OWrote 3; OWrote 9]; trace := []; anyq := anyq st0; hostq := []; fetchq := [];
+              entryq := []; cl := cl st0; env := env st0 |} in
+  let s' := snd (with_fuel (fun f => write_all f [] [x01; x02; x03; x04; x05]) s) in
+  consumed s s' = [OWrote 3; OWrote 9] /\
+  performed s s' = [EWrite [] [x01; x02; x03; x04; x05]; EWrite [] [x04; x05]] /\ steps s s'.
+Proof.
+  cbv zeta. split; [vm_compute; reflexivity|]. split; [vm_compute; reflexivity|].
+  eapply steps_write_all. unfold with_fuel. apply surjective_pairing.
+Qed.
+
+Print Assumptions steps_refl.
+Print Assumptions steps_trans_refuted.
+Print Assumptions steps_le_trans.
+Print Assumptions full_steps_trans.
+Print Assumptions steps_io.
+Print Assumptions steps_write_all.
+Print Assumptions steps_read_exact.
+Print Assumptions steps_read_chunks.
+Print Assumptions steps_get_conn.
+Print Assumptions steps_get_conn_any.
+Print Assumptions steps_send_request.
+Print Assumptions steps_get_response.
+Print Assumptions steps_send_receive.
+Print Assumptions frame_send_receive.
+Print Assumptions frame_get_conn.
+Print Assumptions frame_get_response.
+Print Assumptions write_all_run.
+Print Assumptions read_exact_run.
+Print Assumptions get_response_bytes_ok.
